@@ -1,6 +1,7 @@
 """C20 - ARM/RISC-V build attributes and ARM unwind tables are decoded exactly."""
 from symx.api import H
 from spec import enc, ehabi
+from harness.elfkit import stream_length
 
 PROPERTY = 'C20'
 ASSUMPTIONS = [
@@ -202,6 +203,7 @@ def _gen_section(ctx, arch, spec, little):
 class _Elf:
     def __init__(self, stream, structs, little):
         self.stream = stream
+        self.stream_len = stream_length(stream)
         self.structs = structs
         self.little_endian = little
         self.elfclass = 32
